@@ -10,6 +10,14 @@
      {op: "get_atoms", q: [points], rho: [[num,den] per point], got: [[indices] per point]}
      {op: "cells",     q: [points], c: [cell radius per point], got: [[indices] per point]}
      {op: "adjacency", rho: [num,den], got: [[indices] per atom]}
+     {op: "pairdist",  pairs: [[i,j],...], got: [squared distance in ticks^2 per pair]}
+     {op: "distadj",   rho: [num,den], got: [[indices] per atom]}
+   pairdist / distadj are the library's own pairwise distance matrix (index_distance with
+   periodic=True, distance(box=...)): entries (0-based atom pairs; -1 = the value was not the
+   distance of two lattice points) and its rows thresholded at rho and restricted to the
+   selection.  They must equal PairD2 / AdjRow ("the adjacency matrix equals the thresholded
+   pairwise distance matrix"); for a box outside Dom_Images8 only got >= PairD2 and
+   row \subseteq AdjRow are required.
    got lists are 0-based atom indices (padding removed; masks converted to indices).
    get_atoms / adjacency must equal Near / AdjRow; cells must contain MustInCells and be
    contained in the selection.  Every event is judged on its own; a disagreement prints
@@ -49,6 +57,20 @@ Judge(t, k) ==
     [] e.op = "adjacency" ->
          LET exp == [a \in 1..N(inp) |-> Zero(AdjRow(inp, a, e.rho))]
              ok  == [a \in 1..N(inp) |-> ToSet(e.got[a]) = exp[a]]
+             b   == FirstBad(ok)
+         IN IF Len(e.got) = N(inp) /\ b = 0 THEN TRUE
+            ELSE PrintT(<<"MISMATCH", t, k, b, IF b = 0 THEN {} ELSE exp[b]>>)
+    [] e.op = "pairdist" ->
+         LET exp == [j \in DOMAIN e.pairs |-> PairD2(inp, e.pairs[j][1] + 1, e.pairs[j][2] + 1)]
+             ex  == PairExact(inp)
+             ok  == [j \in DOMAIN e.pairs |-> IF ex THEN e.got[j] = exp[j] ELSE e.got[j] >= exp[j]]
+             b   == FirstBad(ok)
+         IN IF Len(e.got) = Len(e.pairs) /\ b = 0 THEN TRUE
+            ELSE PrintT(<<"MISMATCH", t, k, b, IF b = 0 THEN -1 ELSE exp[b]>>)
+    [] e.op = "distadj" ->
+         LET exp == [a \in 1..N(inp) |-> Zero(DistAdjRow(inp, a, e.rho))]
+             ex  == PairExact(inp)
+             ok  == [a \in 1..N(inp) |-> IF ex THEN ToSet(e.got[a]) = exp[a] ELSE ToSet(e.got[a]) \subseteq exp[a]]
              b   == FirstBad(ok)
          IN IF Len(e.got) = N(inp) /\ b = 0 THEN TRUE
             ELSE PrintT(<<"MISMATCH", t, k, b, IF b = 0 THEN {} ELSE exp[b]>>)
